@@ -55,7 +55,7 @@ def cases(tier, seed, shard, nshards):
                 yield {"h": [OPS[i] for i in h]}
             idx += 1
     r = rng_for(seed, shard, "c08")
-    for _ in range(tier_pick(tier, 8000, 100000) // nshards):
+    for _ in range(tier_pick(tier, 16000, 600000) // nshards):
         yield {"h": [r.choice(OPS) for _ in range(30)]}
 
 
